@@ -20,6 +20,9 @@
 //!   aae   flags src    -> hex(real adaptive-arithmetic-coder stream) for every flag byte without EXT,
 //!                         model: AacRle.aac_encode_r (range coder, adaptive models, order 0/1, RLE, PACK, CAT, STRIPE)
 //!   aad   flags usize stream expect -> hex(decode stream) | Err | Panic; model: AacRle.aac_decode_r
+//!   fqe   lens src     -> hex(real fqzcomp stream); model: Fqz.fqz_encode; verdict: self round trip
+//!   fqd   stream expect -> hex(decode stream) | Err | Panic; model: Fqz.fqz_decode (streams without the features
+//!                         the encoder never uses)
 //! Implementation-only oracles (obs "-"):
 //!   nx16 flags src | aac flags src | fqz lens src | names src | gz level src | bz2 level src | xz level src
 //!   big codec param shape len seed     (input built inside `run`; > 1 MiB inputs and the witnesses of
@@ -642,6 +645,33 @@ fn aac_case(flags: u8, src: &[u8]) -> Obs {
 
 fn fqz_case(lens: &[usize], src: &[u8]) -> Obs {
     roundtrip("fqzcomp", src, || v::fqzcomp_encode(lens, src), |e| v::fqzcomp_decode(e), false)
+}
+
+fn fqe_case(lens: &[usize], src: &[u8]) -> Obs {
+    roundtrip("fqzcomp", src, || v::fqzcomp_encode(lens, src), |e| v::fqzcomp_decode(e), true)
+}
+
+fn fqd_case(c: &Case) -> Obs {
+    let stream = c.b(0);
+    let expect = if c.args[1] == "-" { None } else { Some(c.b(1)) };
+    match guarded(AssertUnwindSafe(|| v::fqzcomp_decode(&stream))) {
+        Outcome::Done(Ok(d)) => {
+            let obs = long_obs(&d);
+            match expect {
+                Some(e) if e != d => Obs::fail(obs, "fqzcomp-decode-mismatch", format!("len={}", e.len())),
+                Some(e) => Obs::ok(obs, !e.is_empty()),
+                None => Obs::ok(obs, false),
+            }
+        }
+        Outcome::Done(Err(e)) => match expect {
+            Some(x) => Obs::fail("Err", "fqzcomp-decode-error", format!("Err:{} len={}", errkind(&e), x.len())),
+            None => Obs::ok("Err", false),
+        },
+        Outcome::Panicked(m) => match expect {
+            Some(x) => Obs::fail("Panic", "fqzcomp-decode-panic", format!("{m} len={}", x.len())),
+            None => Obs::ok("Panic", false),
+        },
+    }
 }
 
 fn names_case(src: &[u8]) -> Obs {
@@ -1385,6 +1415,52 @@ fn generate(rng: &mut Rng, tier: &str, w: &mut CaseWriter) {
         let ls = if lens.is_empty() { "_".to_string() } else { lens.iter().map(|l| l.to_string()).collect::<Vec<_>>().join(",") };
         w.push("fqz", vec![ls, hex(&src)]);
     }
+    // ---- fqzcomp (modelled): fqe / fqd -- equal-length records (DO_LEN), unequal ones, a first
+    // record above 128 qualities (position table shifted), one record, symbols up to 255
+    for it in 0..(30 * scale) {
+        let shape = *rng.pick(&["qual", "qual", "skewed", "single", "two", "uniform", "runs", "all256"]);
+        let (src, lens): (Vec<u8>, Vec<usize>) = match it % 5 {
+            0 => {
+                let rl = rng.range(1, 160) as usize;
+                let n = rng.range(1, 12) as usize;
+                (shaped(rng, shape, rl * n), vec![rl; n])
+            }
+            1 => {
+                let len = rng.range(1, 700) as usize;
+                (shaped(rng, shape, len), vec![len])
+            }
+            2 => {
+                let first = rng.range(129, 400) as usize;
+                let rest = rng.range(0, 300) as usize;
+                let mut l = vec![first];
+                l.extend(gen_partition(rng, rest));
+                let total: usize = l.iter().sum();
+                (shaped(rng, shape, total), l)
+            }
+            _ => {
+                let len = gen_len(rng, if thorough { 4000 } else { 1200 });
+                let src = shaped(rng, shape, len);
+                let l = gen_partition(rng, src.len());
+                (src, l)
+            }
+        };
+        let ls = if lens.is_empty() { "_".to_string() } else { lens.iter().map(|l| l.to_string()).collect::<Vec<_>>().join(",") };
+        w.push("fqe", vec![ls, hex(&src)]);
+        let Outcome::Done(Ok(enc)) = guarded(AssertUnwindSafe(|| v::fqzcomp_encode(&lens, &src))) else { continue };
+        w.push("fqd", vec![hex(&enc), hex(&src)]);
+        if enc.len() > 3 {
+            let cut = rng.range(1, enc.len() as u64 - 1) as usize;
+            w.push("fqd", vec![hex(&enc[..cut]), "-".into()]);
+            // corrupted range-coder bytes (never the size field, the parameter block or its tables)
+            let tail = enc.len().saturating_sub(8).max(enc.len() * 3 / 4);
+            for _ in 0..2 {
+                let mut bad = enc.clone();
+                let pos = rng.range(tail as u64, enc.len() as u64 - 1) as usize;
+                bad[pos] = match rng.below(3) { 0 => 0, 1 => 0xff, _ => rng.below(256) as u8 };
+                w.push("fqd", vec![hex(&bad), "-".into()]);
+            }
+        }
+    }
 
     // ---- name tokenizer
     for _ in 0..(40 * scale) {
@@ -1450,6 +1526,11 @@ fn run(c: &Case) -> Obs {
             let lens: Vec<usize> = if c.args[0] == "_" { vec![] } else { c.args[0].split(',').map(|x| x.parse().unwrap()).collect() };
             fqz_case(&lens, &c.b(1))
         }
+        "fqe" => {
+            let lens: Vec<usize> = if c.args[0] == "_" { vec![] } else { c.args[0].split(',').map(|x| x.parse().unwrap()).collect() };
+            fqe_case(&lens, &c.b(1))
+        }
+        "fqd" => fqd_case(c),
         "names" => names_case(&c.b(0)),
         "gz" | "bz2" | "xz" => ext_case(&c.kind, c.u(0) as u32, &c.b(1)),
         "big" => {
